@@ -332,14 +332,21 @@ def monitor(reqs, replies, roles):
                     viol("C10", None, "a final response did not retire the request", i)
                 if k not in FINAL_RESP and call["id"] in prog_before and call["id"] not in after["outstanding"]:
                     viol("C10", None, "a search entry/reference retired the request", i)
-        if role == "server" and k in SERVER_RESP and not accepted and ok == "LDAPError" and call["id"] in prog_before and before["state"] == "OPENED":
+        # (only for a response of the kind the request calls for: a library that ALSO refuses, say, a search entry for a bind request
+        # would be stricter than this one, not wrong)
+        matching = {"bindResponse": ("bindReq",), "extendedResponse": ("extReq",), "entry": ("searchReq",), "reference": ("searchReq",),
+                    "done": ("searchReq",)}
+        if role == "server" and k in SERVER_RESP and not accepted and ok == "LDAPError" and prog_before.get(call["id"]) in matching[k] \
+                and before["state"] == "OPENED":
             viol("C10", None, "server refused a response for a request that is outstanding", i)
 
         # ---------------- C09: client ids and correlation
         if role == "client" and k in CLIENT_REQ and ok == "sent":
-            if out["id"] != next_id[nm]:
-                viol("C09", None, f"client handed out id {out['id']}, expected {next_id[nm]}", i)
-            next_id[nm] += 1
+            # positive, strictly increasing, never reused (the exact sequence 1, 2, 3 … is the model's business, compared in the
+            # correspondence, not demanded by the property)
+            if not (isinstance(out["id"], int) and out["id"] >= next_id[nm]):
+                viol("C09", None, f"client handed out id {out['id']} after {next_id[nm] - 1} (ids must be positive and strictly increasing)", i)
+            next_id[nm] = max(next_id[nm], out["id"] if isinstance(out["id"], int) else 0) + 1
             if have_int:
                 try:
                     newb = ao[len(bo):]
@@ -359,11 +366,15 @@ def monitor(reqs, replies, roles):
             tail[nm] = buf[pos:] if ok == "msgs" else b""
             if role == "server" and ok == "msgs" and pos:
                 # requests as they were actually delivered (independent framing and header reading of the bytes, not what receive() returned)
+                # only the first two headers of each envelope are read (message id, protocol-op tag): what follows may be anything the
+                # library tolerates
                 try:
-                    for unit in _ber.parse(buf[:pos], deep=True):
-                        kids = unit.kids or []
-                        if len(kids) >= 2 and kids[0].cls == 0 and kids[0].num == 2 and kids[1].cls == 1 and kids[1].num in (0, 3, 23):
-                            delivered_reqs[nm][int.from_bytes(kids[0].content, "big", signed=True)] += 1
+                    for unit in _ber.parse(buf[:pos], deep=False):
+                        c = unit.content
+                        c0, k0, n0, hl0, ln0 = _ber.read_header(c, 0)
+                        c1, k1, n1, hl1, ln1 = _ber.read_header(c, hl0 + ln0)
+                        if (c0, n0) == (0, 2) and c1 == 1 and n1 in (0, 3, 23) and hl0 + ln0 <= len(c):
+                            delivered_reqs[nm][int.from_bytes(c[hl0: hl0 + ln0], "big", signed=True)] += 1
                 except Exception:  # noqa: BLE001
                     pass
         if role == "client" and k == "receive" and before["state"] != "CLOSED" and not tail_before:
